@@ -4,11 +4,13 @@
 mod alloc;
 mod codec;
 mod engine;
+mod fio;
 mod gen;
 mod cont;
 mod p01;
 mod p02;
 mod p03;
+mod p05;
 mod p12;
 mod p16;
 mod refimpl;
@@ -32,6 +34,7 @@ macro_rules! dispatch {
             "C01" => $f::<p01::C01>($($arg),*),
             "C02" => $f::<p02::C02>($($arg),*),
             "C03" => $f::<p03::C03>($($arg),*),
+            "C05" => $f::<p05::C05>($($arg),*),
             "C12" => $f::<p12::C12>($($arg),*),
             "C16" => $f::<p16::C16>($($arg),*),
             other => {
